@@ -283,29 +283,35 @@ theorem sliceDelete_nat (cs : List Stored) (j : Nat) (hj : j < cs.length) :
   have : (0 : Int) ≤ (j : Int) ∧ (j : Int) + 1 ≤ (cs.length : Int) := by omega
   simp [this]
 
+theorem inv_nextVar {m : State} (hinv : Inv m) (n : Nat) : Inv { m with nextVar := n } :=
+  fun pi p hg => hinv pi p hg
+
 /-- the repaired `Retract` does what the logical update view says, in every state whose
     identities are unique -/
 theorem nextRetract_refines (m : State) (hinv : Inv m) (h : Nat) (pat : Term) (pi : PI)
     (rest : List Stored) (i d : Nat) :
     LUV.redoRetract (abs m) h pat pi rest =
       (abs (nextRetract .fixed m h pat pi rest i d).1, (nextRetract .fixed m h pat pi rest i d).2) := by
-  induction rest generalizing i d with
+  induction rest generalizing m i d with
   | nil => simp [LUV.redoRetract, nextRetract, abs, List.map_set, absIter]
   | cons c rest ih =>
     unfold LUV.redoRetract nextRetract
-    cases unify fuelU [] (rulify pat) (rulify c.raw) with
-    | none => exact ih (i + 1) d
+    simp only [abs_nextVar]
+    have hinv1 := inv_nextVar hinv (m.nextVar + maxVar c.raw)
+    have ih1 := fun i d => ih { m with nextVar := m.nextVar + maxVar c.raw } hinv1 i d
+    cases unify fuelU [] (rulify pat) (rulify (shift m.nextVar c.raw)) with
+    | none => exact ih1 (i + 1) d
     | some σ =>
       simp only [abs_procs, LUV.present, LUV.clausesOf, LUV.erase]
       rcases Option.eq_none_or_eq_some (m.procs.get pi) with hg | ⟨p, hg⟩
       · simp only [hg, List.any_nil, Bool.false_eq_true, if_false]
-        exact ih (i + 1) d
+        exact ih1 (i + 1) d
       · simp only [hg]
         rcases indexOf_spec p.clauses c ((i : Int) - d) (hinv pi p hg).1 with ⟨hj, hany⟩ | ⟨j, hj, hlt, her, hany⟩
         · simp only [hj, hany, Bool.false_eq_true, if_false]
           have : (Variant.fixed = Variant.fixed ∧ (-1 : Int) < 0) := ⟨rfl, by omega⟩
           simp only [this, and_self, if_true]
-          exact ih (i + 1) d
+          exact ih1 (i + 1) d
         · have hnot : ¬ (Variant.fixed = Variant.fixed ∧ (j : Int) < 0) := by
             intro ⟨_, hh⟩; omega
           have hnn : ¬ ((j : Int) < 0) := by omega
@@ -347,13 +353,15 @@ theorem inv_set_sublist {m : State} (hinv : Inv m) {pi : PI} {p : Proc} (hg : m.
 
 theorem nextRetract_inv (v : Variant) (m : State) (hinv : Inv m) (h : Nat) (pat : Term) (pi : PI)
     (rest : List Stored) (i d : Nat) : Inv (nextRetract v m h pat pi rest i d).1 := by
+  revert hinv
   fun_induction nextRetract v m h pat pi rest i d with
-  | case1 i d => exact fun pi p hg => hinv pi p hg
-  | case2 c rest i d hu ih => exact ih
-  | case3 c rest i d σ hu hg ih => exact ih
-  | case4 c rest i d σ hu p hg j hj ih => exact ih
-  | case5 c rest i d σ hu p hg j hj hsd => exact fun pi p hg => hinv pi p hg
-  | case6 c rest i d σ hu p hg j hj cs hsd => exact inv_set_sublist hinv hg (sliceDelete_sublist hsd) _ _
+  | case1 st i d => exact fun hinv pi p hg => hinv pi p hg
+  | case2 st0 c rest i d raw st hu ih => exact fun hinv => ih (inv_nextVar hinv _)
+  | case3 st0 c rest i d raw st σ hu hg ih => exact fun hinv => ih (inv_nextVar hinv _)
+  | case4 st0 c rest i d raw st σ hu p hg j hj ih => exact fun hinv => ih (inv_nextVar hinv _)
+  | case5 st0 c rest i d raw st σ hu p hg j hj hsd => exact fun hinv pi p hg => hinv pi p hg
+  | case6 st0 c rest i d raw st σ hu p hg j hj cs hsd =>
+    exact fun hinv => inv_set_sublist (inv_nextVar hinv _) hg (sliceDelete_sublist hsd) _ _
 
 theorem ofErr_fst (x : State × Option Term) : (ofErr x).1 = x.1 := by
   obtain ⟨st, e⟩ := x
@@ -484,12 +492,12 @@ theorem nextRetract_iters (v : Variant) (m : State) (h : Nat) (pat : Term) (pi :
     (rest : List Stored) (i d : Nat) :
     ∃ it, (nextRetract v m h pat pi rest i d).1.iters = m.iters.set h it := by
   fun_induction nextRetract v m h pat pi rest i d with
-  | case1 i d => exact ⟨_, rfl⟩
-  | case2 c rest i d hu ih => exact ih
-  | case3 c rest i d σ hu hg ih => exact ih
-  | case4 c rest i d σ hu p hg j hj ih => exact ih
-  | case5 c rest i d σ hu p hg j hj hsd => exact ⟨_, rfl⟩
-  | case6 c rest i d σ hu p hg j hj cs hsd => exact ⟨_, rfl⟩
+  | case1 st i d => exact ⟨_, rfl⟩
+  | case2 st0 c rest i d raw st hu ih => exact ih
+  | case3 st0 c rest i d raw st σ hu hg ih => exact ih
+  | case4 st0 c rest i d raw st σ hu p hg j hj ih => exact ih
+  | case5 st0 c rest i d raw st σ hu p hg j hj hsd => exact ⟨_, rfl⟩
+  | case6 st0 c rest i d raw st σ hu p hg j hj cs hsd => exact ⟨_, rfl⟩
 
 /-- no operation other than `next h` / `close h` touches iterator `h` -/
 theorem step_frame (v : Variant) (m : State) (h : Nat) (hh : h < m.iters.length) (o : Op)
@@ -586,15 +594,16 @@ theorem LUV_redoCall_ne_panic (s : LUV.State) (h : Nat) (g : Term) (alive : List
 
 theorem LUV_redoRetract_ne_panic (s : LUV.State) (h : Nat) (pat : Term) (pi : PI) (alive : List Stored) :
     (LUV.redoRetract s h pat pi alive).2 ≠ .panic := by
-  induction alive with
+  induction alive generalizing s with
   | nil => simp [LUV.redoRetract]
   | cons c alive ih =>
     unfold LUV.redoRetract
+    dsimp only
     split
     · split
       · simp
-      · exact ih
-    · exact ih
+      · exact ih _
+    · exact ih _
 
 theorem LUV_step_ne_panic (s : LUV.State) (o : Op) : (LUV.step s o).2 ≠ .panic := by
   cases o with
